@@ -505,6 +505,26 @@ def check_property(pid, tier, seed, replay=None, verbose=True):
                 except Exception as e:  # shrinking is a convenience: never let it hide the violation
                     log("[%s] shrinking failed: %r" % (pid, e))
 
+    # ---- regression tier: the saved failing case of every repaired defect of this property must pass on this tree ----
+    regress_n = regress_bad = 0
+    rdir = os.path.join(VERIF, "regress", pid)
+    if replay is None and os.path.isdir(rdir) and os.environ.get("VERIF_REGRESS", "1") != "0":
+        files = sorted(os.path.join(rdir, f) for f in os.listdir(rdir) if f.endswith(".json"))
+
+        def replay_one(path):
+            rc = subprocess.run([sys.executable, os.path.join(VERIF, "vf", "driver.py"), pid, "--tier", tier, "--seed", str(seed),
+                                 "--replay", path, "--no-evidence"], stdout=subprocess.PIPE, stderr=subprocess.PIPE, text=True)
+            return path, rc.stdout, rc.stderr
+        with cf.ThreadPoolExecutor(4) as ex:
+            for path, out, err in ex.map(replay_one, files):
+                regress_n += 1
+                if "VIOLATION property=" in out:
+                    regress_bad += 1
+                    confirmed.append((dict(sig="regression:" + os.path.basename(path)[:-5],
+                                           detail="the saved failing case of a repaired defect fails again: " + (out + err)[-1200:]), path))
+                elif "REPLAY property=" not in out:
+                    notes.append("regression replay %s gave no verdict: %s" % (os.path.basename(path), (out + err)[-300:]))
+        log("[%s] regression tier: %d saved cases of repaired defects replayed, %d failing" % (pid, regress_n, regress_bad))
     wall = time.time() - t_start
     uniq = []
     for s in samples:
@@ -519,6 +539,7 @@ def check_property(pid, tier, seed, replay=None, verbose=True):
             exhaustive=bool(exhaustive and spec.get("exhaustive", False)),
             per_target=per_target, notes=notes, build_s=round(build_s, 1), run_s=round(run_s, 1),
             known_findings_seen=sorted(known_hit.keys()),
+            regression_replays=dict(replayed=regress_n, failing=regress_bad),
             repo_tree_hash=repo_hash()[:16]),
         assumptions=spec.get("assumptions", []),
         wall_s=round(wall, 2), violations=len(confirmed))
